@@ -33,7 +33,74 @@ static void on_deadlock(void) {
 	fflush(out);
 }
 
+static int P_, J_, ordered_, NC_;
+static long nruns_total;
+
+/* one complete pool life cycle under the current scheduler configuration; returns the number of steps */
+static int life_cycle(long r, unsigned long seed, int sp, bool systematic) {
+	cur_run = r;
+	fprintf(out, "{\"e\":\"Reset\",\"x\":%ld}\n{\"e\":\"Cfg\",\"max\":%d,\"jobs\":%d,\"ordered\":%s,\"clients\":%d,\"seed\":%lu}\n", r, P_, J_, ordered_ ? "true" : "false", NC_, seed);
+	vs_begin(seed, systematic ? 0 : sp);
+	struct threadpool *pool = threadpool_init((size_t)P_);
+	struct result_handler *rh[4];
+	for (int c = 0; c < NC_; c++) rh[c] = result_handler_init(res_cb, (void *)(long)(c + 1));
+	for (int j = 1; j <= J_; j++)
+		for (int c = 0; c < NC_; c++) {
+			long id = (c + 1) * 100 + j;
+			fprintf(out, "{\"e\":\"Dispatch\",\"j\":%ld,\"c\":%d}\n", id, c + 1);
+			threadpool_dispatch(pool, rh[c], ordered_, job, (void *)id);
+		}
+	for (int c = 0; c < NC_; c++) {
+		result_handler_destroy(&rh[c]);
+		fprintf(out, "{\"e\":\"Closed\",\"c\":%d}\n", c + 1);
+	}
+	threadpool_destroy(&pool);
+	int steps = vs_end();
+	fprintf(out, "{\"e\":\"PoolDestroyed\",\"maxlive\":%d,\"steps\":%d}\n", vs_max_threads_seen, steps);
+	nruns_total++;
+	return steps;
+}
+
+/* systematic exploration: every schedule with at most `bound` preemptions (a preemption = taking the running thread
+ * off the processor although it could continue), under a fixed policy for the choices made when a thread blocks */
+static void explore(int depth, int bound, long *st, int *ch, int policy, long from) {
+	vs_decisions(depth, st, ch, policy);
+	int n = life_cycle(nruns_total, 0, 0, true);
+	if (vs_decision_invalid || depth == bound) return;
+	for (long s = from; s < n; s++)
+		for (int c = 0; c < 4; c++) {
+			st[depth] = s; ch[depth] = c;
+			/* probe validity cheaply: run it; an invalid choice (no such alternative) ends the loop over c */
+			long before = nruns_total;
+			vs_decisions(depth + 1, st, ch, policy);
+			int n2 = life_cycle(nruns_total, 0, 0, true);
+			(void)n2; (void)before;
+			if (vs_decision_invalid) break;
+			if (depth + 1 < bound) {
+				for (long s2 = s + 1; s2 < n2; s2++)
+					for (int c2 = 0; c2 < 4; c2++) {
+						st[depth + 1] = s2; ch[depth + 1] = c2;
+						vs_decisions(depth + 2, st, ch, policy);
+						life_cycle(nruns_total, 0, 0, true);
+						if (vs_decision_invalid) break;
+					}
+			}
+		}
+}
+
 int main(int argc, char **argv) {
+	if (argc >= 8 && !strcmp(argv[2], "systematic")) {
+		/* pool_drv <out> systematic <maxthreads> <jobs> <ordered> <clients> <bound> */
+		out = fopen(argv[1], "w");
+		P_ = atoi(argv[3]); J_ = atoi(argv[4]); ordered_ = atoi(argv[5]); NC_ = atoi(argv[6]);
+		int bound = atoi(argv[7]);
+		vs_on_deadlock = on_deadlock;
+		long st[8]; int ch[8];
+		for (int policy = 0; policy < 3; policy++) explore(0, bound > 2 ? 2 : bound, st, ch, policy, 0);
+		fprintf(stderr, "systematic: %ld schedules\n", nruns_total);
+		fclose(out);
+		return 0;
+	}
 	if (argc < 11) { fprintf(stderr, "usage\n"); return 2; }
 	out = fopen(argv[1], "w");
 	int P = atoi(argv[2]), J = atoi(argv[3]), ordered = atoi(argv[4]), NC = atoi(argv[5]);
